@@ -43,6 +43,23 @@ func compareRotated(what string, got gts.Feature, want Feat, L, n int) *Violatio
 	if v := compareFeatureCirc(what, got, want, expDen, expM, L, true); v != nil {
 		return v
 	}
+	// the location as it is written (what the GenBank writer and every command emit) reads back as what it is
+	{
+		text := got.Loc.String()
+		var re gts.Location
+		var err error
+		if pi := guard(func() { re, err = gts.AsLocation(text) }); pi != nil {
+			return panicViolation("AsLocation("+text+")", pi)
+		}
+		if err != nil {
+			return viol("written-form", "%s: the rotated location is written %q, which does not parse: %v", what, text, err)
+		}
+		a, ok1 := fromGts(got.Loc)
+		b, ok2 := fromGts(re)
+		if ok1 && ok2 && a.wellFormed() && b.wellFormed() && !sameElems(collapse(den(a)), collapse(den(b))) {
+			return viol("written-form", "%s: the rotated location %s is written %q, which reads back as %s (%s vs %s)", what, a, text, b, elemsString(collapse(den(a))), elemsString(collapse(den(b))))
+		}
+	}
 	// "a full-length feature stays full-length": a single range over the whole sequence (either strand, whatever its
 	// partial markers) is not opened at the new origin - it comes back as the same range
 	if w, depth := want.Loc, 0; true {
